@@ -729,6 +729,63 @@ func (fr *frame) checkIndex(idx value, t types.Type, n int) int {
 	return int(fr.i.ex.concretize(fr, tm, 0, int64(n)-1))
 }
 
+// indexRead implements x[idx] for reading a cell: with a symbolic index over scalar
+// cells the result is an ite-chain (no forking); otherwise the index is concretised.
+func (fr *frame) indexRead(cells []value, idx value, t types.Type) value {
+	c, tm := idx64(idx, t)
+	n := len(cells)
+	if tm == nil {
+		if c < 0 || c >= int64(n) {
+			fr.i.rtPanic(fr, fmt.Sprintf("index out of range [%d] with length %d", c, n))
+		}
+		return cells[c]
+	}
+	scalar := n > 0 && n <= 256
+	w := -1
+	if scalar {
+		for _, cell := range cells {
+			var cw int
+			switch x := cell.(type) {
+			case *Term:
+				cw = x.w
+			case bool:
+				cw = 0
+			case int, int64, uint, uint64, uintptr:
+				cw = 64
+			case int32, uint32:
+				cw = 32
+			case int16, uint16:
+				cw = 16
+			case int8, uint8:
+				cw = 8
+			default:
+				scalar = false
+			}
+			if !scalar {
+				break
+			}
+			if w == -1 {
+				w = cw
+			} else if w != cw {
+				scalar = false
+				break
+			}
+		}
+	}
+	if !scalar {
+		return cells[fr.checkIndex(idx, t, n)]
+	}
+	inb := mkCmp(OpUlt, tm, mkConst(64, uint64(n)))
+	if !fr.truth(norm(inb, boolType), "index") {
+		fr.i.rtPanic(fr, fmt.Sprintf("index out of range [symbolic] with length %d", n))
+	}
+	res := termOf(cells[n-1])
+	for k := n - 2; k >= 0; k-- {
+		res = mkIte(mkEq(tm, mkConst(64, uint64(k))), termOf(cells[k]), res)
+	}
+	return res
+}
+
 // slice returns x[lo:hi:max].  Any of lo, hi and max may be nil.
 func (fr *frame) slice(instr *ssa.Slice, x, lo, hi, max value) value {
 	var Len, Cap int
